@@ -137,6 +137,25 @@ HAND = {
     @update
     def upO(): s.out @= s.v[2]
 ''',
+  'hand:SliceAndWhole': '''
+    s.in_ = InPort(Bits4); s.q = OutPort(Bits4); s.z = OutPort(Bits8); s.w = Wire(Bits8); s.p = Wire(P); s.pz = OutPort(Bits8)
+    @update
+    def upW():
+      s.w[0:4] @= s.in_
+      s.p.a @= s.in_ + 1
+    @update
+    def upHi():
+      s.w[4:8] @= s.in_ ^ 9
+      s.p.b @= s.in_ ^ 5
+    @update
+    def upQ(): s.q @= s.w[0:4] ^ s.p.a
+    @update
+    def upZ():
+      s.z @= s.w + 1
+    @update
+    def upPz():
+      s.pz @= concat(s.p.a, s.p.b)
+''',
   'hand:NameClash': None,   # built below: many blocks whose names are prefixes of each other
 }
 
